@@ -18,7 +18,7 @@ META = {
                   'the exception class, the stored content and each clause of the invariant are compared.',
     'level_note': 'Bounded: three schemas (typed dict with constant + dynamic keys and a nested typed list, typed list '
                   'with element range and size bounds, object with required / frozen / noneable fields and a nested '
-                  'typed list), exhaustive depth 3-4 with reduced argument pools, simulation depth <= 40 with full '
+                  'typed list), exhaustive depth 2-4 with reduced argument pools, simulation depth <= 40 with full '
                   'pools; type checking stays on; batches have two elements.  Don\'t-cares: which admissible prefix a '
                   'rejected batch keeps; MISSING written to an undeclared key (may or may not raise).  A valid write '
                   'that the code rejects is a machinery failure (exit 2), not a violation.  Trusted: TLC, the TLA+ '
@@ -39,9 +39,9 @@ def run(chk):
                       'values are small ints / strs / None / lists of them; batches have two elements',
                       'a rejected batch may keep any of its valid elements (alts), as the statement allows']
   # 1. the model: TLC proves the invariant and the action property on the intended semantics
-  mc = ['C03_list.cfg', 'C03_list2_cov.cfg', 'C03_nest.cfg', 'C03_obj.cfg', 'C03_objp.cfg', 'C03_dict.cfg', 'C03_dictp_2.cfg']
+  mc = ['C03_list.cfg', 'C03_list2_cov.cfg', 'C03_nest.cfg', 'C03_obj.cfg', 'C03_objp.cfg', 'C03_dict_cov.cfg', 'C03_dictp_2.cfg']
   if thorough:
-    mc += ['C03_dictp.cfg', 'C03_list2.cfg', 'C03_list_deep.cfg', 'C03_dict_deep.cfg', 'C03_obj_deep.cfg']
+    mc += ['C03_dict.cfg', 'C03_dictp.cfg', 'C03_list2.cfg', 'C03_list_deep.cfg', 'C03_dict_deep.cfg', 'C03_obj_deep.cfg']
   for cfg in mc:
     typedtree.model_check(chk, cfg)
   # vacuity of the exhaustive runs: every action has transitions out of the initial states (depth-1 state graph)
